@@ -185,6 +185,54 @@ PROPS["C10"] = {
     "cover_replay_tests": {"two_point": "c10::two_point_segments_reachable"},
 }
 
+_MUT_FUNCS = [
+    "<ec_linear::mutator::with_rate::WithRate as Mutator<Vec<bool>>>::mutate and <WithRate as Mutator<Bitstring>>::mutate (Linear flavour)",
+    "<ec_linear::mutator::with_one_over_length::WithOneOverLength as Mutator<_>>::mutate (both flavours)",
+    "<ec_linear::mutator::umad::Umad<G> as Mutator<Vector<u8>>>::mutate, Umad::{new,new_without_empty,new_with_empty_rate}",
+    "ec_linear::genome::bitstring::{Bitstring::random, Bitstring::random_with_probability, BoolGenerator::sample}",
+    "<push::genome::plushy::GeneGenerator<T> as Distribution<PushGene>>::sample, GeneGenerator::with_uniform_close_probability, ConvertToGeneGenerator",
+    "rand 0.9.0 StandardUniform<f32>, StandardUniform<bool>, Bernoulli (random_bool) on the symbolic generator",
+]
+PROPS["C11"] = {
+    "features": ["c11"],
+    "modules": ["c11_mutation::"],
+    "name_filter": "^c11_",
+    "unwind_by_harness": [("umad_l1", 4), ("umad_l2", 5)],
+    "caps_by_harness": [("_t_umad_", (1500, 14))],
+    "weight_by_harness": [("_t_umad_", 2)],
+    "functions": _MUT_FUNCS[:3],
+    "bounds": {
+        "quick": "every random stream; bit-flip (Vec<bool> and Bitstring flavours) on genomes of length 0,1,3 / 0,2,4 with symbolic genes and a symbolic f32 rate in [0,2]: "
+                 "length preserved, one draw per gene, rate 0 identity, rate >= 1 everything flipped; UMAD on Vector<u8> with position-tagged parents of length 0,1,2, "
+                 "a probe gene generator (tags 100,101,.. in generation order) and rates from {0,1/2,1} (9 instances incl. the three empty-genome modes): surviving parent genes in order, "
+                 "new genes are generator outputs in order, at most one insertion per parent position, empty parent <= 1 gene (0 when disabled), degenerate-rate clauses",
+        "thorough": "as quick plus bit-flip lengths 2,4 / 1,3,6",
+    },
+    "outside": "UMAD on parents longer than 2 and with two symbolic rates at once (measured: > 15 min); UMAD on Plushy / Bitstring genomes (same generic code, other element types); bit vectors longer than 6",
+    "assumptions": ["rand 0.9.0 sampling algorithms run unmodified on the symbolic generator"],
+}
+PROPS["C12"] = {
+    "features": ["c11"],
+    "modules": ["c11_mutation::"],
+    "name_filter": "^c12_",
+    "unwind_by_harness": [("umad_l1", 4), ("umad_l2", 5)],
+    "caps_by_harness": [("_t_umad_", (1500, 14))],
+    "weight_by_harness": [("_t_umad_", 2)],
+    "functions": _MUT_FUNCS,
+    "bounds": {
+        "quick": "measure characterisation, for ALL random words and a SYMBOLIC rate: WithRate flips gene i iff (w_i >> 8) < ceil(rate*2^24) (its own word only; probability within 2^-24 of the rate), "
+                 "lengths 0..=4; WithOneOverLength the same with rate 1/L and L*threshold = 2^24 +- L (one expected flip); UMAD child == reference built from the same words (add coin, delete coin, "
+                 "delete-new coin only after an addition, generator call only for surviving additions: new genes are subject to deletion with the deletion rate), rates {0,1/2,1} for L <= 2 and "
+                 "one symbolic rate in [0,1] for L = 1; coin(p) = word < floor(p*2^64), p = 1 without a draw; uniform crossover is decided under C10 (top bit of word i); Bitstring::random "
+                 "bit i = top bit of word i; random_with_probability / BoolGenerator = coin(p) with symbolic p; Plushy gene: close iff (w >> 8) < ceil(p*2^24) else exactly one sample of the "
+                 "instruction distribution, default p = 1/(n+1) for a symbolic n <= 2^24",
+        "thorough": "as quick plus the thorough bit-flip lengths",
+    },
+    "outside": "'expected size preserved when deletion = addition/(1+addition)' is the arithmetic corollary of the verified draw protocol (not re-proved); UMAD with L > 2 or two symbolic rates; "
+               "the definition of a uniform variate is rand 0.9.0's StandardUniform/Bernoulli algorithms (version guard on Cargo.lock)",
+    "assumptions": ["distinct random words are independent and uniform (the measure of {w : w < t} is t/2^k)"],
+}
+
 PROPS["C13"] = {
     "features": ["c13"],
     "modules": ["c13_weighted::"],
